@@ -306,7 +306,7 @@ def run(ck):
     if not ck.quick:
         for (mod, log) in ck.leanchecker(PROPS):
             ck.violation("leanchecker:" + mod, "leanchecker rejects %s" % mod, {"log": log}, False)
-    env = {"ASAN_OPTIONS": "detect_leaks=0"}
+    env = {"ASAN_OPTIONS": "detect_leaks=0:symbolize=0"}
 
     consts = run_batch(ck, harness, ["C"], env=env)[0].split()
     cpp, inc = unhx(consts[1]), unhx(consts[2])
